@@ -395,6 +395,28 @@ def max_value(rng, db: proto.TypeDB, t: dict):
     return max_comp(rng, db, db.comp(t['id']))
 
 
+def min_value(rng, db: proto.TypeDB, t: dict):
+    """a value of minimal serialized size (the Python twin of MetaC05TightThm.min_val): empty variable-length arrays, the union option of
+    minimal size"""
+    k = t['k']
+    if k == 'void':
+        return None
+    if k in ('bool', 'uint', 'int', 'float'):
+        return valgen.gen_prim(rng, t, rng.choice(['zero', 'edge', 'rand']), set())
+    if k == 'farr':
+        return [min_value(rng, db, t['elem']) for _ in range(t['n'])]
+    if k == 'varr':
+        return []
+    return min_comp(rng, db, db.comp(t['id']))
+
+
+def min_comp(rng, db: proto.TypeDB, c: dict):
+    if c['kind'] == 'union':
+        i = min(range(len(c['fields'])), key=lambda j: (c['fields'][j]['type']['min_bits'], j))
+        return {'tag': i, 'value': min_value(rng, db, c['fields'][i]['type'])}
+    return [min_value(rng, db, f['type']) for f in c['fields']]
+
+
 def max_comp(rng, db: proto.TypeDB, c: dict):
     if c['kind'] == 'union':
         i = max(range(len(c['fields'])), key=lambda j: (c['fields'][j]['type']['max_bits'], j))
@@ -761,9 +783,10 @@ def rerun_single(files: typing.Dict[str, str], modname: str, options: dict, exe_
 # ------------------------------------------------------------------------------------------------
 
 def matrix_for(tier: str, rng) -> typing.List[typing.Tuple[str, dict]]:
-    m = [('target_c', {'target_endianness': 'any'}),
+    # one build per target family with --enable-serialization-asserts (NUNAVUT_ASSERT = assert: a failing size assert aborts = crash)
+    m = [('target_c', {'target_endianness': 'any', 'enable_serialization_asserts': True}),
          ('target_c', {'target_endianness': 'little', 'sanitize': True}),
-         ('target_cpp', {'target_endianness': 'any', 'std': 'c++14'}),
+         ('target_cpp', {'target_endianness': 'any', 'std': 'c++14', 'enable_serialization_asserts': True}),
          ('target_cpp', {'target_endianness': 'little', 'std': 'c++17', 'sanitize': True}),
          ('target_py', {})]
     if tier != 'quick':
@@ -956,6 +979,8 @@ def main(chk: core.Check, replay: typing.Optional[str] = None) -> int:
             v = max_comp(chk.rng, db, c)
             for cap in caps_for(chk.tier, chk.rng, maxb):
                 ser_cases.append((tid, v, cap, maxb))
+            # a value of MINIMAL size (lower-bound asserts of the generated code, shortest delimited payloads) into the advertised buffer
+            ser_cases.append((tid, min_comp(chk.rng, db, c), maxb, maxb))
         reqs = [prep.model.ser_req(tid, v, cap, 'f') for tid, v, cap, _ in ser_cases]
         spec_out = prep.model.run(reqs)
         capchk = m5.run(['capchk %s %d' % (tid, cap) for tid, _, cap, _ in ser_cases]) if ok5 else [''] * len(reqs)
@@ -969,6 +994,8 @@ def main(chk: core.Check, replay: typing.Optional[str] = None) -> int:
                 failures.append({'kind': 'model-capcheck', 'tid': tid, 'cap': cap, 'model': cc, 'max_bytes': maxb, 'files': needed_files(prep, tid)})
             if not want_small and so.startswith('ok') and cap == maxb and int(so.split()[1]) == maxb:
                 stats['tight_max_values'] += 1
+            if not want_small and so.startswith('ok') and cap == maxb and int(so.split()[1]) == (db.comp(tid)['meta']['min_bits'] + 7) // 8:
+                stats['tight_min_values'] = stats.get('tight_min_values', 0) + 1
 
         def run_ser(item):
             lab, tgt = item
@@ -1000,7 +1027,9 @@ def main(chk: core.Check, replay: typing.Optional[str] = None) -> int:
                         problem = 'capacity %d >= %d = ceil(max_bits/8) must suffice' % (cap, maxb)
                     elif got.startswith('ok'):
                         size = int(got.split()[1])
-                        if size > maxb or size > (c['extent_bits'] + 7) // 8 or size > cap:
+                        if size < (c['meta']['min_bits'] + 7) // 8:
+                            problem = 'serialized size %d is below the minimum %d of the type' % (size, (c['meta']['min_bits'] + 7) // 8)
+                        elif size > maxb or size > (c['extent_bits'] + 7) // 8 or size > cap:
                             problem = 'serialized size %d exceeds the advertised bound %d / extent %d / capacity %d' % (
                                 size, maxb, (c['extent_bits'] + 7) // 8, cap)
                         elif so.startswith('ok') and not modelmod.same_ser(so, got, None) and not masked_same(prep, tid, v, so, got):
